@@ -40,6 +40,10 @@ func TestMakeExemplars(t *testing.T) {
 		// the host passes the same argument objects again
 		"same-argument-objects-again": {Progs: []Program{{Body: List(Bin("~", x, y), MCall(x, "string")), ArgNames: []string{"x", "y"}, ArgTypes: []Ty{TLInt, TLInt}}},
 			Tuples: [][][]*Expr{{{ints(1, 2, 3), ints(1, 2, 3)}, {ints(3, 1), ints(1, 2, 3)}}}, Steps: []Step{ev(0), ev(0), ev(1), ev(0)}, ReuseArgs: true},
+		// a shared lazy list with a failing item: forcing it fails every time, a prefix consumer succeeds every time
+		"failing-item-in-a-shared-lazy-list": {Progs: one(Let("l", MCall(ints(4, 3, 0, 2), "map", Lam([]string{"e"}, Bin("%", Int(9), Var("e")))),
+			If(Bin(">", x, Int(0)), MCall(Var("l"), "size"), MCall(Var("l"), "first"))), TInt), Tuples: [][][]*Expr{{{Int(1)}, {Int(0)}}},
+			Steps: []Step{ev(0), ev(1), ev(0), ev(0), ev(1)}, Opt: true},
 		// a failing evaluation in between
 		"failing-evaluation-in-between": {Progs: one(Let("a", MCall(SCall("numbers", Int(5)), "map", Lam([]string{"e"}, Bin("/", Int(12), Bin("-", x, Var("e"))))), MCall(Var("a"), "reduce", Lam([]string{"p", "q"}, Bin("+", Var("p"), Var("q"))))), TInt),
 			Tuples: [][][]*Expr{{{Int(8)}, {Int(3)}}}, Steps: []Step{ev(0), ev(1), ev(0), {Op: "generate"}, ev(0)}, Opt: true},
